@@ -352,6 +352,28 @@ pub fn run(p: &[String]) -> Vec<String> {
             let ws = back.get_sheet_by_name("Sheet1").unwrap();
             vec![hex(ws.get_cell(child.as_str()).map(|c| c.get_formula()).unwrap_or("<no cell>"))]
         }
+        // ---- C06
+        "hyperlink_roundtrip" => {
+            // n : n cells A1..An each with its own external hyperlink; save, reload, report the cells whose target changed
+            let n = u(&p[1]);
+            let mut book = umya_spreadsheet::new_file();
+            let ws = book.get_sheet_by_name_mut("Sheet1").unwrap();
+            for i in 1..=n {
+                let c = ws.get_cell_mut((1, i));
+                c.set_value_string(format!("link{}", i));
+                c.get_hyperlink_mut().set_url(format!("https://example.invalid/{}", i));
+            }
+            let mut buf: Vec<u8> = Vec::new();
+            umya_spreadsheet::writer::xlsx::write_writer(&book, &mut buf).unwrap();
+            let back = umya_spreadsheet::reader::xlsx::read_reader(std::io::Cursor::new(buf), true).unwrap();
+            let ws = back.get_sheet_by_name("Sheet1").unwrap();
+            let mut wrong = vec![];
+            for i in 1..=n {
+                let got = ws.get_cell((1, i)).and_then(|c| c.get_hyperlink()).map(|h| h.get_url().to_string()).unwrap_or("<none>".to_string());
+                if got != format!("https://example.invalid/{}", i) { wrong.push(format!("A{}->{}", i, got)); }
+            }
+            vec![hex(&wrong.join(","))]
+        }
         // ---- C05
         "font_roundtrip" => {
             // name size bold name size bold : two cells with these fonts, saved and reloaded
